@@ -24,6 +24,8 @@ struct Ctl {
     /// (task, op index, op text, session already closed when the op started, result)
     oplog: Vec<(usize, usize, String, bool, String)>,
     opened: Vec<Handle>,
+    /// per opened stream: its reader has reached end of stream (or the error)
+    eofs: Vec<bool>,
 }
 
 async fn park(ctl: &Arc<Mutex<Ctl>>, tid: usize, name: &str) {
@@ -74,6 +76,26 @@ impl Group for SchedGroup {
             (0, vec!["nobuf;open;o30", "d1.5;open;o9"], Some(("alert", 5))),
             (1, vec!["nobuf;open;o200", "close", "open;o9"], Some(("budget 2", 0))),
         ];
+        // the peer's answer (SYNACK, data) arrives at every point of an open in progress (one task, then two)
+        for (tasks, npicks) in [(vec!["nobuf;open;o5"], 14usize), (vec!["nobuf;open;o5", "open;o3"], 22)] {
+            for verdict in ["ok", "no"] {
+                for at in 0..npicks {
+                    let mut lines = vec![reset_line("sched", "client", SCHEMES[2].as_bytes(), 7, "")];
+                    for t in &tasks { lines.push(format!("sched task {t}")); }
+                    lines.push("sched go".into());
+                    for k in 0..npicks {
+                        if k == at {
+                            let mut b = crate::g_frame::ref_encode(7, 1, if verdict == "ok" { b"" } else { b"no route" });
+                            b.extend(crate::g_frame::ref_encode(2, 1, b"early-data"));
+                            lines.push(format!("sched feed {}", hex(&b)));
+                        }
+                        lines.push("sched pick 0".into());
+                    }
+                    lines.push("sched drain".into());
+                    v.push(Case { lines });
+                }
+            }
+        }
         let depth = if tier == "thorough" { 7 } else { 4 };
         for (si, tasks, fault) in &scen {
             let mut total = 1usize;
@@ -105,7 +127,16 @@ impl Group for SchedGroup {
         lines.push("sched go".into());
         let steps = rng.range(3, 40);
         let fault_at = if with_fault && rng.chance(2, 3) { Some(rng.below(steps)) } else { None };
+        let feeds: Vec<u64> = if role == "client" && rng.chance(1, 2) { (0..rng.range(1, 3)).map(|_| rng.below(steps)).collect() } else { vec![] };
         for s in 0..steps {
+            if feeds.contains(&s) {
+                let mut b = vec![];
+                for _ in 0..rng.range(1, 3) {
+                    let sid = rng.range(1, 3) as u32;
+                    match rng.below(6) { 0 => b.extend(crate::g_frame::ref_encode(7, sid, b"")), 1 => b.extend(crate::g_frame::ref_encode(7, sid, b"no route")), 2 => b.extend(crate::g_frame::ref_encode(3, sid, b"")), 3 => b.extend(crate::g_frame::ref_encode(0, 0, &[0u8; 9])), _ => { let n = rng.range(1, 12) as usize; b.extend(crate::g_frame::ref_encode(2, sid, &vec![0x70 + sid as u8; n])) } }
+                }
+                lines.push(format!("sched feed {}", hex(&b)));
+            }
             if fault_at == Some(s) {
                 lines.push(match rng.below(5) { 0 => "sched eof".into(), 1 => "sched rderr".into(), 2 => "sched alert".into(), _ => format!("sched budget {}", rng.below(4)) });
             }
@@ -120,10 +151,15 @@ impl Group for SchedGroup {
         let mut out = Outcome::default();
         rt.block_on(async {
             let mut node: Option<Node> = None;
-            let ctl = Arc::new(Mutex::new(Ctl { st: vec![], go: vec![], results: vec![], oplog: vec![], opened: vec![] }));
+            let ctl = Arc::new(Mutex::new(Ctl { st: vec![], go: vec![], results: vec![], oplog: vec![], opened: vec![], eofs: vec![] }));
             let mut progs: Vec<Vec<String>> = vec![];
             let mut joins: Vec<tokio::task::JoinHandle<()>> = vec![];
             let mut cause: Option<String> = None;
+            // inbound frames fed while a stream's SYN was already on the wire: what its reader / opener must get
+            let mut fed_data: std::collections::BTreeMap<u32, Vec<u8>> = Default::default();
+            let mut fed_verdict: std::collections::BTreeMap<u32, bool> = Default::default();
+            let mut fed_fin: std::collections::BTreeSet<u32> = Default::default();
+            let mut any_verdict: std::collections::BTreeSet<u32> = Default::default();
             {
                 let c2 = ctl.clone();
                 anytls_rs::verif::set_point_controller(Some(Arc::new(move |name: &'static str| {
@@ -216,6 +252,24 @@ impl Group for SchedGroup {
                         settle().await;
                         out.obs.push(format!("{}{}", status(&ctl), n.delta().await));
                     }
+                    ["feed", hx] => {
+                        let Some(bytes) = unhex(hx) else { out.obs.push("bad-op".into()); continue; };
+                        let on_wire: std::collections::BTreeSet<u32> = { let w = n.wire.lock().unwrap().writes.concat(); crate::g_frame::ref_parse(&w).0.iter().filter(|f| f.0 == 1).map(|f| f.1).collect() };
+                        if !n.session.is_closed() {
+                            for (c, sid, d) in crate::g_frame::ref_parse(&bytes).0 {
+                                // the first answer wins, whenever it came; only answers that follow the SYN on the wire are constrained
+                                let first = (c == 7 || c == 3) && any_verdict.insert(sid);
+                                if !on_wire.contains(&sid) { if c == 3 { fed_fin.insert(sid); } continue; }
+                                if c == 2 && !fed_fin.contains(&sid) { fed_data.entry(sid).or_default().extend_from_slice(&d); }
+                                if c == 7 && first { fed_verdict.insert(sid, d.is_empty()); }
+                                if c == 3 { fed_fin.insert(sid); if first { fed_verdict.insert(sid, false); } }
+                            }
+                        }
+                        n.feed.lock().unwrap().chunks.push_back(bytes);
+                        wake(&n.feed);
+                        settle().await;
+                        out.obs.push(format!("{}{}", status(&ctl), n.delta().await));
+                    }
                     ["budget", k] => {
                         n.wire.lock().unwrap().budget = if *k == "none" { None } else { k.parse().ok() };
                         out.obs.push("ok".into());
@@ -236,16 +290,32 @@ impl Group for SchedGroup {
                         };
                         let fmt = |v: &Vec<u32>| v.iter().map(|x| x.to_string()).collect::<Vec<_>>().join(",");
                         let mut objs: Vec<(u32, String)> = vec![];
+                        let closed_now = n.session.is_closed();
+                        let streams: Vec<Arc<anytls_rs::session::Stream>> = ctl.lock().unwrap().opened.iter().map(|h| h.stream.clone()).collect();
+                        let mut datas: Vec<Vec<u8>> = vec![];
+                        let mut eofs: Vec<bool> = vec![];
+                        for st in &streams { let (d, e) = read_all_available(st).await; eofs.push(e); datas.push(if closed_now { vec![] } else { d }); }
+                        ctl.lock().unwrap().eofs = eofs;
                         {
                             let mut c = ctl.lock().unwrap();
-                            for hd in c.opened.iter_mut() {
+                            for (k, hd) in c.opened.iter_mut().enumerate() {
                                 let sy = match hd.synack_rx.as_mut().map(|rx| rx.try_recv()) {
                                     Some(Ok(Ok(()))) => "ok".to_string(),
                                     Some(Ok(Err(e))) => format!("err {}", hex(e.to_string().as_bytes())),
                                     Some(Err(tokio::sync::oneshot::error::TryRecvError::Empty)) => "pending".into(),
                                     _ => "dropped".into(),
                                 };
-                                objs.push((hd.stream.id(), format!("{}:{}:{}", hd.stream.id(), hd.stream.is_closed() as u8, sy)));
+                                let sid = hd.stream.id();
+                                // O (C01/C10): what arrived for a stream whose SYN was on the wire reaches its reader / its opener
+                                if !closed_now && cause.is_none() {
+                                    if let Some(want) = fed_data.get(&sid) {
+                                        if !datas[k].ends_with(want) { out.oracle.push(OracleFail { sig: "inbound_data_lost/open_in_progress".into(), detail: format!("stream {sid}: {} bytes arrived after its SYN was on the wire, its reader obtains {} bytes", want.len(), datas[k].len()) }); }
+                                    }
+                                    if let Some(ok) = fed_verdict.get(&sid) {
+                                        if sy == "pending" || (*ok != (sy == "ok")) { out.oracle.push(OracleFail { sig: "verdict_lost/open_in_progress".into(), detail: format!("stream {sid}: the peer's answer ({}) arrived after the SYN was on the wire, the opener sees '{}'", if *ok { "ok" } else { "refusal / FIN" }, &sy[..sy.len().min(40)]) }); }
+                                    }
+                                }
+                                objs.push((sid, format!("{}:{}:{}:{}", sid, hd.stream.is_closed() as u8, sy, if closed_now { "?".to_string() } else { hex(&datas[k]) })));
                             }
                         }
                         objs.sort();
@@ -297,8 +367,8 @@ async fn oracles(out: &mut Outcome, ctl: &Arc<Mutex<Ctl>>, n: &mut Node, progs: 
                 out.oracle.push(OracleFail { sig: "attempt_after_close_succeeds/session_concurrent".into(), detail: format!("task {tid} op {oi} `{op}` started after the session was closed and returned ok") });
             }
         }
-        for hd in c.opened.iter() {
-            if !hd.stream.is_closed() {
+        for (k, hd) in c.opened.iter().enumerate() {
+            if !hd.stream.is_closed() && !c.eofs.get(k).copied().unwrap_or(false) {
                 out.oracle.push(OracleFail { sig: "stream_not_released/session_concurrent".into(), detail: format!("stream {} of the closed session is not closed: its reader never reaches end of stream", hd.stream.id()) });
             }
         }
